@@ -89,6 +89,15 @@ for label, G in subjects:
     out = Vector3d(V.copy()).in_fundamental_sector(G).data.reshape(-1, 3)
     cases.append({"label": label, "kind": kind_of(G.name), "S": {"q": G.data.reshape(-1, 4).tolist(), "imp": G.improper.reshape(-1).astype(int).tolist()},
                   "N": N.tolist(), "center": c[0].tolist() if len(c) else None, "v": V.tolist(), "out": out.tolist()})
+    # integer-typed input must give what the same numbers give as floats (the special cases assign in place)
+    Vi = np.array([[1, 0, -1], [2, -1, -3], [0, -1, 0], [-1, -2, 1], [3, 1, -2], [0, 0, -1]])
+    oi = Vector3d(Vi.copy()).in_fundamental_sector(G).data.reshape(-1, 3)
+    of = Vector3d(Vi.astype(float)).in_fundamental_sector(G).data.reshape(-1, 3)
+    st("int-dtype")
+    if not np.allclose(oi, of, atol=1e-12):
+        k = int(np.argmax(np.abs(oi - of).max(axis=1)))
+        fail(f"project:int-dtype:{label}", f"integer-typed {Vi[k].tolist()} is projected to {oi[k].tolist()} but the same "
+             f"vector given as floats to {of[k].tolist()} ({label})", {"group": label, "v": Vi[k].tolist(), "dtype": "int64"})
     again = Vector3d(out.copy()).in_fundamental_sector(G).data.reshape(-1, 3)
     inside = np.asarray(Vector3d(out.copy()) <= fs).reshape(-1)
     for k, (stn, v) in enumerate(vs):
